@@ -253,6 +253,9 @@ func check(c Case, ev *evid.Collector, runs int) *evid.Violation {
 }
 
 func checkInc(c Case, ev *evid.Collector, runs int) (*evid.Violation, string) {
+	if c.Engine == "regsync" {
+		return nil, "" // engine 4 lives in cmd/regsync (harness/inpkg/cmd/regsync/verif_c17_test.go, jobs sync / syncreplay)
+	}
 	if c.Engine == "copy" {
 		return checkCopy(c, ev, runs)
 	}
